@@ -79,7 +79,8 @@ Lemma process_op_ok g T txs acc o :
   cfg_consistent g -> In T txs -> acc_ok g T txs acc -> acc_ok g T txs (process_op g T acc o).
 Proof.
   intros CC HT. destruct acc as [[vt vobjs] err]. intros [[U CH] [LE [C [VI E]]]].
-  unfold process_op. destruct (op_proc o); [repeat split; assumption|].
+  unfold process_op. destruct (op_proc o).
+  { split; [split; assumption|]. split; [exact LE|]. split; [exact C|]. split; [exact VI | exact E]. }
   set (cc := cls_of g (op_cls o)). set (k := k_tab cc :: op_key o).
   rewrite (known_iff_present T vt vobjs k C).
   set (present := existsb (is_row k T) vt).
@@ -89,7 +90,7 @@ Proof.
     + assert (Hval : k_validity cc = true).
       { unfold cc. rewrite (CC (op_cls o)). fold cc. rewrite Ek in Hv. simpl in Hv. exact Hv. }
       revert Hr. rewrite Hval. intro Hr.
-      apply (write_row_chain_same vt k T (op_kind o) (op_dat g cc o) (flags_now g cc o) U LE); [|exact Hr | exact Ek].
+      apply (write_row_chain_same vt k T (op_kind o) (op_dat g cc o) (flags_now g cc o) LE); [|exact Hr | exact Ek].
       intros r0 Hr0 Hk0. apply CH; [exact Hr0|]. rewrite Hk0. simpl.
       unfold cc in Hval. rewrite (CC (op_cls o)) in Hval. exact Hval.
     + pose proof (proj1 (write_row_other present vt k T _ _ _ _ r Nk) Hr) as Hin.
@@ -160,11 +161,14 @@ Proof.
   2:{ destruct (flush_off g s objs ents assoc Hv) as [E1 [E2 [E3 [E4 [E5 E6]]]]].
       destruct H as [_ [[Hdb [Hc [VI [Hcache Herr]]]] Hn]].
       assert (Eerr : s_err (flush g s objs ents assoc) = s_err s) by (unfold flush; rewrite Hv; reflexivity).
-      unfold Inv2. rewrite E1, E3, E5, E6, Eerr. repeat split; try apply Hdb; try apply Hc; auto. }
+      split; [|rewrite E6; exact Hn].
+      unfold Inv2. rewrite E1, E3, E5, E6, Eerr.
+      split; [exact Hdb|]. split; [exact Hc|]. split; [exact VI|]. split; [exact Hcache | exact Herr]. }
   pose proof (before_flush_all g s objs H) as [H1 [[Hdb [Hc [VI [Hcache Herr]]]] Hn]].
   unfold flush. rewrite Hv. simpl. fold (before_flush g s objs). set (s1 := before_flush g s objs) in *.
   destruct (u_cur (s_uow s1)) as [T|] eqn:Ecur.
-  2:{ simpl. unfold Inv2; simpl. repeat split; try apply Hdb; try apply Hc; auto; discriminate. }
+  2:{ simpl. unfold Inv2; simpl. split; [|intros _; exact (Hn eq_refl)].
+      split; [exact Hdb|]. split; [exact Hc|]. split; [exact VI|]. split; [discriminate | exact Herr]. }
   destruct (fold_left (track g) ents (u_ops (s_uow s1))) as [|o ops'] eqn:Eops.
   { simpl. unfold Inv2; simpl. split; [|discriminate].
     split; [exact Hdb|]. split; [exact Hc|]. split; [exact VI|]. split; [|exact Herr].
@@ -175,10 +179,8 @@ Proof.
     intros T' E. inversion E; subst T'. apply Hcache; reflexivity. }
   destruct H1 as [[V _] [_ [Hcur _]]]. destruct (Hcur T Ecur) as [HT Hmax].
   assert (A0 : acc_ok g T (d_tx (s_db s1)) (d_vt (s_db s1), u_vobjs (s_uow s1), s_err s1)).
-  { repeat split; try apply Hdb; auto.
-    - intros r Hr. apply Hmax, V, Hr.
-    - apply (Hcache T Ecur).
-    - apply (Hcache T Ecur). }
+  { split; [exact Hdb|]. split; [intros r Hr; apply Hmax, V, Hr|].
+    split; [exact (Hcache T eq_refl)|]. split; [exact VI | exact Herr]. }
   pose proof (fold_process_ok g T (d_tx (s_db s1)) (o :: ops') _ CC HT A0) as A1.
   destruct (fold_left (process_op g T) (o :: ops') (d_vt (s_db s1), u_vobjs (s_uow s1), s_err s1))
     as [[vt' vobjs'] err'] eqn:Ef.
@@ -222,3 +224,17 @@ Lemma chain_v_table g t tab :
   tab_valid g tab = true -> chain_v g t ->
   forall r, In r t -> hd 0 (vkey r) = tab -> vend r = min_above t (vkey r) (vtx r).
 Proof. intros Hv C r Hr Ht. apply C; [exact Hr | rewrite Ht; exact Hv]. Qed.
+
+(* decidable form of the configuration hypothesis, monitored by the correspondence check *)
+Definition cfg_consistentb (g : cfg) : bool :=
+  forallb (fun cc => Bool.eqb (k_validity cc) (tab_valid g (k_tab cc))) (g_classes g) &&
+  negb (tab_valid g (-1)).
+
+Lemma cfg_consistentb_spec g : cfg_consistentb g = true -> cfg_consistent g.
+Proof.
+  unfold cfg_consistentb, cfg_consistent. intro H. apply andb_true_iff in H as [H1 H2].
+  rewrite forallb_forall in H1. intro c. unfold cls_of.
+  destruct (nth_in_or_default c (g_classes g) dflt_cls) as [Hin|Hd].
+  - apply Bool.eqb_prop. apply H1. exact Hin.
+  - rewrite Hd. simpl. apply negb_true_iff in H2. symmetry. exact H2.
+Qed.
